@@ -36,18 +36,22 @@ func (z *zzImpl) Unary(ctx context.Context, in *testproto.Msg) (*testproto.Msg, 
 
 const zzSvcName = "grpcwebsockets.TestService"
 
-// zzNewServer builds a Server with the test service registered (RegisterService uses
-// reflection and is outside the encoding; the registry is constructed directly).
+// zzNewServer builds a Server with the test service registered through the exported
+// RegisterService (its reflect.TypeOf/Elem/Implements check is modelled by the engine). The
+// service descriptor is the generated one with the requested streaming handlers.
 func zzNewServer(id string, impl *zzImpl, streams map[string]grpc.StreamHandler, opts ...ServerOption) *Server {
 	srv := NewServer(id, opts...)
-	info := &serviceInfo{
-		name:        zzSvcName,
-		serviceImpl: impl,
-		methods:     map[string]*grpc.MethodDesc{},
-		streams:     map[string]*grpc.StreamDesc{},
+	sd := &grpc.ServiceDesc{
+		ServiceName: zzSvcName,
+		HandlerType: (*testproto.TestServiceServer)(nil),
+		Methods:     testproto.TestService_ServiceDesc.Methods[:1],
+		Metadata:    testproto.TestService_ServiceDesc.Metadata,
 	}
-	info.methods["Unary"] = &testproto.TestService_ServiceDesc.Methods[0]
-	for name, h := range streams {
+	for _, name := range []string{"ServerStream", "ClientStream", "BidiStream"} {
+		h, ok := streams[name]
+		if !ok {
+			continue
+		}
 		cs, ss := true, true
 		switch name {
 		case "ServerStream":
@@ -55,9 +59,14 @@ func zzNewServer(id string, impl *zzImpl, streams map[string]grpc.StreamHandler,
 		case "ClientStream":
 			ss = false
 		}
-		info.streams[name] = &grpc.StreamDesc{StreamName: name, Handler: h, ClientStreams: cs, ServerStreams: ss}
+		sd.Streams = append(sd.Streams, grpc.StreamDesc{StreamName: name, Handler: h, ClientStreams: cs, ServerStreams: ss})
 	}
-	srv.services[zzSvcName] = info
+	for name, h := range streams {
+		if name != "ServerStream" && name != "ClientStream" && name != "BidiStream" {
+			sd.Streams = append(sd.Streams, grpc.StreamDesc{StreamName: name, Handler: h, ClientStreams: true, ServerStreams: true})
+		}
+	}
+	srv.RegisterService(sd, impl)
 	return srv
 }
 
